@@ -671,4 +671,177 @@ theorem Inv.init (eps : List (Nat × Nat)) (nres : Nat) : Inv (St.init eps nres)
 theorem Inv.run (eps : List (Nat × Nat)) (nres : Nat) (es : List Event) : Inv ((St.init eps nres).run es) :=
   Inv.closed.run (Inv.init eps nres) es
 
+
+/-! ## teardown: nothing survives coap_free_context -/
+
+theorem dropHolders_cons (st : St) (x : Holder) (t : List Holder) :
+    st.dropHolders (x :: t) = (st.dropHolder x).dropHolders t := rfl
+
+theorem holders_dropHolder_mem (st : St) (x : Holder) (hx : x ∈ st.holders) :
+    (st.dropHolder x).holders = st.holders.erase x := by
+  unfold St.dropHolder; simp [hx]
+
+theorem dropHolders_all (sid : Nat) : ∀ (xs : List Holder) (acc : St),
+    xs.Perm (acc.holders.filter (fun h => h.sid == sid)) →
+    (acc.dropHolders xs).holders.filter (fun h => h.sid == sid) = [] := by
+  intro xs
+  induction xs with
+  | nil => intro acc hp; exact (List.nil_perm.mp hp)
+  | cons x t ih =>
+    intro acc hp
+    obtain ⟨hx, ht⟩ := List.cons_perm_iff_perm_erase.mp hp
+    have hx' : x ∈ acc.holders := (List.mem_filter.mp hx).1
+    rw [dropHolders_cons]
+    apply ih
+    rw [holders_dropHolder_mem acc x hx', ← List.erase_filter]
+    exact ht
+
+/-- `r`'s sessions all stem from sessions of `a` with the same id and key -/
+def Sub (r a : St) : Prop := ∀ s ∈ r.sessions, ∃ s0 ∈ a.sessions, s0.sid = s.sid ∧ s0.peer = s.peer
+
+theorem Sub.refl (a : St) : Sub a a := fun s hs => ⟨s, hs, rfl, rfl⟩
+theorem Sub.trans {a b c : St} (h1 : Sub a b) (h2 : Sub b c) : Sub a c := by
+  intro s hs
+  obtain ⟨s1, hs1, e1, e2⟩ := h1 s hs
+  obtain ⟨s2, hs2, e3, e4⟩ := h2 s1 hs1
+  exact ⟨s2, hs2, by rw [e3, e1], by rw [e4, e2]⟩
+theorem Sub.sids {r a : St} (h : Sub r a) : ∀ x, x ∈ r.sids → x ∈ a.sids := by
+  intro x hx
+  obtain ⟨s, hs, rfl⟩ := List.mem_map.mp hx
+  obtain ⟨s0, hs0, e, _⟩ := h s hs
+  exact List.mem_map.mpr ⟨s0, hs0, e⟩
+
+theorem Sub.dropHolder (a : St) (x : Holder) : Sub (a.dropHolder x) a := by
+  unfold St.dropHolder
+  split
+  · intro s hs
+    obtain ⟨s0, hs0, rfl⟩ := mem_updSess.mp hs
+    refine ⟨s0, hs0, ?_, ?_⟩ <;> by_cases c : s0.sid = x.sid <;> simp [c, Sess.release]
+  · exact Sub.refl a
+
+theorem Sub.dropHolders : ∀ (xs : List Holder) (a : St), Sub (a.dropHolders xs) a := by
+  intro xs
+  induction xs with
+  | nil => intro a; exact Sub.refl a
+  | cons x t ih => intro a; rw [dropHolders_cons]; exact (ih _).trans (Sub.dropHolder a x)
+
+theorem Sub.reclaim (a : St) (sid : Nat) : Sub (a.reclaim sid) a := by
+  unfold St.reclaim
+  split
+  · exact Sub.refl a
+  · split
+    · exact Sub.refl a
+    · intro s hs
+      have hs' : s ∈ a.sessions.filter (fun t => t.sid ≠ sid) := hs
+      exact ⟨s, (List.mem_filter.mp hs').1, rfl, rfl⟩
+
+theorem eps_dropHolder (a : St) (x : Holder) : (a.dropHolder x).eps = a.eps := by
+  unfold St.dropHolder; split <;> rfl
+theorem eps_dropHolders : ∀ (xs : List Holder) (a : St), (a.dropHolders xs).eps = a.eps := by
+  intro xs
+  induction xs with
+  | nil => intro a; rfl
+  | cons x t ih => intro a; rw [dropHolders_cons, ih, eps_dropHolder]
+
+/-- one session of `coap_free_endpoint_lkd`: afterwards it is gone -/
+theorem freeOne {a : St} (h : Inv a) (sid : Nat) :
+    let r := (a.dropHolders (a.holders.filter fun h => h.sid == sid)).reclaim sid
+    Inv r ∧ Sub r a ∧ r.eps = a.eps ∧ sid ∉ r.sids := by
+  intro r
+  have h1 : Inv (a.dropHolders (a.holders.filter fun h => h.sid == sid)) := Inv.closed.dropHolders h _
+  have hz : (a.dropHolders (a.holders.filter fun h => h.sid == sid)).holds sid = 0 := by
+    unfold St.holds
+    rw [List.countP_eq_length_filter, dropHolders_all sid _ a (List.Perm.refl _)]; rfl
+  refine ⟨Inv.closed.reclaim _ _ h1, (Sub.reclaim _ sid).trans (Sub.dropHolders _ a), ?_, ?_⟩
+  · show (St.reclaim _ sid).eps = _
+    rw [Closed.reclaim_eps, eps_dropHolders]
+  · show sid ∉ (St.reclaim _ sid).sids
+    unfold St.reclaim
+    cases hg : (a.dropHolders (a.holders.filter fun h => h.sid == sid)).getSess sid with
+    | none =>
+      dsimp only
+      intro hin
+      obtain ⟨s, hs, e⟩ := List.mem_map.mp hin
+      unfold St.getSess at hg
+      rw [List.find?_eq_none] at hg
+      exact hg s hs (by simpa using e)
+    | some t =>
+      obtain ⟨ht, hsid⟩ := getSess_some hg
+      have : t.ref = 0 := by rw [h1.H.ref t ht, hsid]; exact hz
+      simp only [this, ne_eq, not_true_eq_false, if_false]
+      intro hin
+      obtain ⟨s, hs, e⟩ := List.mem_map.mp hin
+      have hs' : s ∈ (a.dropHolders (a.holders.filter fun h => h.sid == sid)).sessions.filter (fun t => t.sid ≠ sid) := hs
+      have := (List.mem_filter.mp hs').2
+      simp at this; exact this e
+
+theorem freeMany : ∀ (L : List Nat) (a : St), Inv a →
+    let r := L.foldl (fun acc sid => (acc.dropHolders (acc.holders.filter fun h => h.sid == sid)).reclaim sid) a
+    Inv r ∧ Sub r a ∧ r.eps = a.eps ∧ ∀ x ∈ L, x ∉ r.sids := by
+  intro L
+  induction L with
+  | nil => intro a h; exact ⟨h, Sub.refl a, rfl, by simp⟩
+  | cons sid t ih =>
+    intro a h
+    obtain ⟨i1, s1, e1, n1⟩ := freeOne h sid
+    obtain ⟨i2, s2, e2, n2⟩ := ih _ i1
+    refine ⟨i2, s2.trans s1, e2.trans e1, ?_⟩
+    intro x hx
+    rcases List.mem_cons.mp hx with rfl | hx
+    · exact fun hin => n1 (s2.sids _ hin)
+    · exact n2 x hx
+
+theorem freeEndpoint_spec {a : St} (h : Inv a) (ep : Nat × Nat) :
+    Inv (a.freeEndpoint ep) ∧ Sub (a.freeEndpoint ep) a ∧ (a.freeEndpoint ep).eps = a.eps ∧
+    ∀ s ∈ (a.freeEndpoint ep).sessions, s.onEp ep.1 ep.2 = false := by
+  obtain ⟨i1, s1, e1, n1⟩ := freeMany ((a.epSessions ep.1 ep.2).map (·.sid)) a h
+  refine ⟨i1, s1, e1, ?_⟩
+  intro s hs
+  cases hon : s.onEp ep.1 ep.2 with
+  | false => rfl
+  | true =>
+    exfalso
+    obtain ⟨s0, hs0, es, epr⟩ := s1 s hs
+    have hon0 : s0.onEp ep.1 ep.2 = true := by unfold Sess.onEp at hon ⊢; rw [epr]; exact hon
+    have hin : s0.sid ∈ (a.epSessions ep.1 ep.2).map (·.sid) :=
+      List.mem_map.mpr ⟨s0, List.mem_filter.mpr ⟨hs0, hon0⟩, rfl⟩
+    apply n1 _ hin
+    rw [es]
+    exact List.mem_map.mpr ⟨s, hs, rfl⟩
+
+theorem freeEndpoints_spec : ∀ (E : List (Nat × Nat)) (a : St), Inv a →
+    Inv (E.foldl St.freeEndpoint a) ∧ Sub (E.foldl St.freeEndpoint a) a ∧ (E.foldl St.freeEndpoint a).eps = a.eps ∧
+    ∀ ep ∈ E, ∀ s ∈ (E.foldl St.freeEndpoint a).sessions, s.onEp ep.1 ep.2 = false := by
+  intro E
+  induction E with
+  | nil => intro a h; exact ⟨h, Sub.refl a, rfl, by simp⟩
+  | cons ep t ih =>
+    intro a h
+    obtain ⟨i1, s1, e1, n1⟩ := freeEndpoint_spec h ep
+    obtain ⟨i2, s2, e2, n2⟩ := ih _ i1
+    refine ⟨i2, s2.trans s1, e2.trans e1, ?_⟩
+    intro ep' hep s hs
+    rcases List.mem_cons.mp hep with rfl | hep
+    · obtain ⟨s0, hs0, _, epr⟩ := s2 s hs
+      have := n1 s0 hs0
+      unfold Sess.onEp at this ⊢; rw [← epr]; exact this
+    · exact n2 ep' hep s hs
+
+/-- after all endpoints have been freed no session and no holder is left -/
+theorem freeEndpoints_empty {a : St} (h : Inv a) :
+    (a.eps.foldl St.freeEndpoint a).sessions = [] ∧ (a.eps.foldl St.freeEndpoint a).holders = [] := by
+  obtain ⟨i1, _, e1, n1⟩ := freeEndpoints_spec a.eps a h
+  have hs : (a.eps.foldl St.freeEndpoint a).sessions = [] := by
+    apply List.eq_nil_iff_forall_not_mem.mpr
+    intro s hs
+    have hep := i1.S.ep s hs
+    rw [e1] at hep
+    have := n1 _ hep s hs
+    simp [Sess.onEp] at this
+  refine ⟨hs, ?_⟩
+  apply List.eq_nil_iff_forall_not_mem.mpr
+  intro x hx
+  obtain ⟨s, hs', _⟩ := i1.H.live x hx
+  rw [hs] at hs'; simp at hs'
+
 end Coap.Sessions
